@@ -33,6 +33,10 @@ def posI32 (x : Nat) : Bool := 0 < x && x < 2147483648
 def admit32 (id32 head32 N : Nat) : Bool := wsub id32 head32 < N
 /-- `len_before` returned with an admitted slot -/
 def lenBefore32 (id32 head32 : Nat) : Nat := wsub id32 head32
+/-- `len_after_publishing`: `i32::max(1, slot_id.overflowing_add(1).0.overflowing_sub(head).0 as i32) as u32` -/
+def lenAfter32 (id32 head32 : Nat) : Nat :=
+  let d := wsub (wadd id32 1) head32
+  if posI32 d then d else 1
 /-- consumer emptiness test: `tail.overflowing_sub(slot_id).0 as i32 > 0` (`consume_leaking_internal`) -/
 def hasItem32 (tail32 id32 : Nat) : Bool := posI32 (wsub tail32 id32)
 /-- slot index: `slot_id as usize % BUFFER_SIZE` -/
